@@ -155,6 +155,7 @@ def case(ctx, rnd, i):
         a = rnd.randint(0, n)
         b = rnd.randint(a, min(n, a + rnd.choice([0, 1, 2, 3, 6, n])))
         slice_tk = []
+        slice_fact = False
         args = {"from": a, "to": b}
         if opname in ("replace", "replace_range", "replace_step"):
             s = rnd.choice(slices) if slices and rnd.random() < 0.9 else Slice.empty
@@ -166,6 +167,7 @@ def case(ctx, rnd, i):
                     args = {"from": a, "to": b}
             st = flat.toks(flat.pt_frag(s.content), leaf)
             slice_tk = st[s.open_start:len(st) - s.open_end]
+            slice_fact = gensteps.both_open_non_prefix(rs, flat.pt_frag(s.content), s.open_start, s.open_end)
             args.update(slice=s.to_json(), open=[s.open_start, s.open_end])
             if opname == "replace":
                 fn = lambda tr: tr.replace(a, b, s)  # noqa: E731
@@ -214,7 +216,8 @@ def case(ctx, rnd, i):
         ctx.count("op:" + opname)
         ctx.ev()
         det = {**base, "op": opname, "args": args}
-        mech = {"op": opname, "schema_class": "totality" if sch.totality else sch.cls, "schema": sid}
+        mech = {"op": opname, "schema_class": "totality" if sch.totality else sch.cls, "schema": sid,
+                "slice_node_open_both_sides_non_prefix": slice_fact}
         tr = Transform(d)
         lim = opwork.line_budget(n, len(slice_tk))
         try:
